@@ -3,6 +3,7 @@
   Theorems over `Router.handle`, `Router.reqMsg`, `Router.makeECS` for every query, rule list, client
   address and upstream reply (at most one OPT per message, as RFC 6891 requires and the property states).
 -/
+import MosVerif.Props.C12Pins
 import MosVerif.Lemmas.RouterBasic
 import MosVerif.Lemmas.OptPop
 import MosVerif.Lemmas.RouterSpecMain
@@ -179,13 +180,5 @@ example : UpsOneOpt ⟨true, .v4 [10, 1, 2, 3], [], [.fail]⟩ := by
   | zero => simp at h
   | succ n => simp at h
 example : makeECS (.v4 [192, 0, 2, 77]) = some [0, 8, 0, 7, 0, 1, 24, 0, 192, 0, 2] := by decide
-
-/-- tie: ECS constants, the guard of the ECS option, the Unmap call, OPT removal from upstream replies. -/
-theorem pins :
-    Facts.udpSize = 1200 ∧ Facts.ecs_mask4 = 24 ∧ Facts.ecs_mask6 = 56 ∧ Facts.ecs_truncated4 = 3 ∧
-    Facts.ecs_truncated6 = 7 ∧ Facts.ecs_length4 = 7 ∧ Facts.ecs_length6 = 11 ∧ Facts.ecs_family4 = 1 ∧
-    Facts.ecs_family6 = 2 ∧ Facts.ecs_guard = "r.opt.ecsEnabled && remoteAddr.IsValid()" ∧
-    Facts.ecs_unmap = "addr = addr.Unmap()" ∧ Facts.fwd_removeEdns0 = "dnsmsg.RemoveEDNS0(resp)" ∧
-    Facts.opt_supportCond = "rr.Hdr().Type == dnsmsg.TypeOPT" := by decide
 
 end MosVerif.C12
